@@ -67,13 +67,12 @@ theorem backendB_retry_structure :
 theorem C09_backend_extracted (s0 : BSt) (h0 : StartF s0) (hqp : s0.cfg.qp = Extracted.boundedParams) (pre : List Op)
     (a : Nat) (x : Actor) (st : Stmt) (k : Nat) (hblk : s0.cfg.dropping = false)
     (hx : (runOps s0 pre).actor a = some x) (hp : x.pend = .retry st k) (hsz : st.size ≤ s0.cfg.qcap)
-    (hcom : ∀ i, x.ctx = some i → ReadsCommitted (runOps s0 pre) i)
     (hrun : (runOps s0 pre).backendGone = false) (dt : Nat) (hdt : s0.cfg.grace ≤ dt)
     (suffix : List Op) (hq : ∀ o ∈ suffix, quietOp o = true) (hn : PB.pendingCount (runOps s0 pre) ≤ pollCount suffix)
     (hk : st.kind = .log) (hk0 : k = 0) :
     (resume (runOps (runOps s0 pre) (.front (.tick dt) :: suffix)) a).2 = s!"id={st.id} ret=1 ev=1 bytes={st.size}" := by
   have h := (C09_blocked_call_resumes s0 h0 pre a x st k (by rw [hqp]; exact backendB_retry_structure.1) hblk hx hp hsz
-    hcom hrun dt hdt suffix hq hn).2.2 hk (Or.inl hk0)
+    hrun dt hdt suffix hq hn).2.2 hk (Or.inl hk0)
   rw [h.1, hk0]; exact C09_obs_ret1 st
 
 end Obligations
